@@ -34,7 +34,7 @@ RULE = ("structured random cases per generator (all 8 numbers-vs-streams combina
         "impulse / adsr / attack with durations one or two ulps around x.5 (0.49999999999999994), durations given as float / int / "
         "bool / Fraction / float subclass, inf / -inf / nan / None / omitted, every positional / keyword / omitted-default call "
         "shape of line, truthy and falsy non-bool `finish`; white / gauss noise with one limit by keyword and the other left to "
-        "its default, degenerate distributions (low == high, sigma == 0: exact values); before the build the translator harness/props/c19_tr.py rewrites lean/ALV/Gen/C19Src.lean from the source text of modulo_counter / line / fadein / fadeout / attack / adsr (no case is generated for it: the theorems src_*_is_model are re-checked against what the source says now); a case is non-trivial when the impl yields at least "
+        "its default, degenerate distributions (low == high, sigma == 0: exact values); before the build the translator harness/props/c19_tr.py rewrites lean/ALV/Gen/C19Src.lean from the source text of modulo_counter / line / fadein / fadeout / attack / adsr / ones / zeros / impulse / sinusoid / TableLookup.__call__ / __getitem__ (no case is generated for it: the theorems src_*_is_model are re-checked against what the source says now); a case is non-trivial when the impl yields at least "
         "one sample (multi: two calls do); distinct = distinct JSON case")
 TRUSTED = [
     "translator harness/props/c19_tr.py (ast of audiolazy/lazy_synth.py -> lean/ALV/Gen/C19Src.lean, nothing imported from "
@@ -49,12 +49,27 @@ TRUSTED = [
     "split of `Arg`, float literals 0. / 1. / .5 as NumOps.zero / one / half, `E == 0` as NumOps.isZero, `+ - * /` and unary "
     "minus as the NumOps fields with an int operand entering through NumOps.ofInt, `E % m % m` as modChain (one NumOps.mod "
     "per `%` written), int() as NumOps.trunc, `abs(E) < float('inf')` as `int(E) would not raise` (finiteG; exact for "
-    "binary64: int() refuses exactly inf, -inf and nan), iter / next / `is None` on an optional list; the decorator "
+    "binary64: int() refuses exactly inf, -inf and nan), iter / next / `is None` on an optional list, `x is None or C` on an optional number as a match on Option (C read only "
+    "for a number), isinf / order comparisons of numbers as NumOps.isInf / lt / le (`a >= b` as `le b a`, the int literal "
+    "0 compared with a number as NumOps.zero), an endless `while True: yield E` ends the sequence of segments (what "
+    "follows it in the function is never run and is not read), `for v in g(..): yield f(v)` over a translated generator "
+    "function as mapOut f (the exception of g, if any, after its outputs; f = math.sin is a parameter assumed total on the "
+    "outputs, the expression `2 * pi` is the parameter twoPi); for the method TableLookup.__call__: `self` is read only through "
+    "len(self) (= the length of the table, `__len__` and the property `table` checked to be their one-liners), self.table "
+    "(a list) and the expression `self.cycles * 2 * pi` (the parameter den); `number * x` for x a number or a Stream as "
+    "Arg.map; `tbl[j]` as Python list indexing indexG (negative indices, IndexError); int(ceil(E)) as NumOps.ceil; "
+    "for TableLookup.__getitem__: int(floor(E)) as the parameter floor (NumOps has none), `j % k` of ints as intModG "
+    "(floored, ZeroDivisionError); `Stream(E for v in run)` as the lazy map mapRunG with the raising primitives of E in Python's left to right order; "
+    "the decorator "
     "`tostream` and the `Stream` wrapper are not translated (what the wrapper adds is the subject of C02). NOT trusted: "
     "the translated text itself - src_modulo_counter_is_model, src_line_is_model, src_fadein/fadeout_is_model, "
-    "src_adsr_is_model, src_attack_is_model prove it equal to the code shaped models mcNow / lineG / adsrG / attackNow that "
+    "src_adsr_is_model, src_attack_is_model, src_ones_is_model, src_zeros_is_model, src_impulse_is_model, src_sinusoid_is_model, "
+    "src_table_call_is_model, src_table_getitem_is_model prove it equal to the code shaped models mcNow / lineG / adsrG / "
+    "attackNow / constG / impulseG / sinusoidNow / tableCallNow / getItemNow (getItemNow is tied to the specification "
+    "interpCyc, which the driver runs and the tie compares with the real values, by the theorem src_table_getitem_eq_spec "
+    "only) that "
     "the driver runs and the differential tie compares with the real outputs (exact and bit for bit), so a wrong reading of "
-    "the source shows either as a failing theorem or as a model mismatch; check translator-selftest: 8 deliberate edits of "
+    "the source shows either as a failing theorem or as a model mismatch; check translator-selftest: 25 deliberate edits of "
     "the source text must change the generated text, comments must not, the clean source must reproduce the committed file",
     "float regime: Lean's `Float` + - * / are the C double operations (IEEE binary64, round to nearest even) exactly as "
     "CPython's; C fmod, Python's sign adjustment of float `%` (Objects/floatobject.c float_rem: `mod += wx` when the signs "
@@ -137,10 +152,10 @@ MANIFEST = {
     "technique": "Lean 4 machine-checked proof over an executable model + source-to-Lean translator of generator function "
                  "bodies (harness/props/c19_tr.py -> lean/ALV/Gen/C19Src.lean, theorems src_*_is_model re-checked on every run) "
                  "+ differential correspondence with the implementation (exact and bit for bit on binary64)",
-    "text": "102 Lean 4 theorems. The bodies of modulo_counter (8-way isinstance dispatch, 12 loops, every `% modulo` "
-            "counted), line, fadein, fadeout, attack, adsr are REGENERATED from the source text on every run and proved equal "
+    "text": "113 Lean 4 theorems. The bodies of modulo_counter (8-way isinstance dispatch, 12 loops, every `% modulo` "
+            "counted), line, fadein, fadeout, attack, adsr, ones, zeros, impulse, sinusoid, TableLookup.__call__ / __getitem__ are REGENERATED from the source text on every run and proved equal "
             "to the code shaped models (src_modulo_counter_is_model, src_line_is_model, src_adsr_is_model, "
-            "src_attack_is_model, ...), hence to the specifications over exact numbers. Float regime: operation-generic generators (record NumOps) run on IEEE binary64 predict the "
+            "src_attack_is_model, src_ones_is_model, src_impulse_is_model, ...), hence to the specifications over exact numbers. Float regime: operation-generic generators (record NumOps) run on IEEE binary64 predict the "
             "real float outputs bit for bit (all eight branches / spellings of modulo_counter, fast paths, oscillators, "
             "durations at the x.5 rounding boundaries); over the exact operations they are the proved model; every output of "
             "every path is a double reduction y % m % m, which lies in [0, m) for any monotone rounding while a single float "
@@ -1990,6 +2005,16 @@ TRANSLATED = {
         "fadeout": "src_fadeout_is_model",
         "adsr": "src_adsr_is_model (= adsrG), src_adsr_eq_spec",
         "attack": "src_attack_is_model (= attackNow: attackG, empty sustain iterable -> empty envelope), src_attack_eq_spec",
+        "ones": "src_ones_is_model (= constG o o.one: optional duration, endless branch, rounded duration)",
+        "zeros": "src_zeros_is_model (= constG o o.zero)",
+        "impulse": "src_impulse_is_model (= impulseG, items of any type)",
+        "sinusoid": "src_sinusoid_is_model (= sinusoidNow: sin of modulo_counter(phase, 2 * pi, freq); `sin` and the value of "
+                    "`2 * pi` are parameters), src_sinusoid_exact (= the model `sinusoid` of C19.sin.*)",
+        "TableLookup.__call__": "src_table_call_is_model (= tableCallNow: today's counter, every sample in Python's order of "
+                                "evaluation), src_table_call_eq_G (= tableCallG under two no-raise hypotheses), "
+                                "src_table_call_eq_spec (exact numbers: cyclic linear interpolation)",
+        "TableLookup.__getitem__": "src_table_getitem_is_model (= getItemNow, D15 as repaired), src_table_getitem_eq_spec (exact "
+                                   "numbers, non-empty table: interpCyc for every index), src_table_getitem_empty",
         "defaults / decorators of these": "src_defaults_are_documented (decide)",
     },
     "not_translated": TR.NOT_TRANSLATED,
